@@ -26,7 +26,7 @@ RULE = ("simulated style-based elections (all / disjoint / nested / random style
         "skipped; distinct = hash of (spec, sizes)")
 REQUIRED = ["contract:CVR.consistent_sampling", "draws_checked", "thresholds_checked", "data_prefix_checked",
             "determinism_checked", "vote_independence_checked", "draws_with_skipped_cards", "sizes:ones", "sizes:all",
-            "sizes:one_exhausted", "sizes:random", "draws_with_phantoms_selected", "cards_listing_no_contest_present", "polling_order_checked", "mismatched_sample_refused", "second_draw_same_contest_objects", "draw_after_sample_numbers_reassigned"]
+            "sizes:one_exhausted", "sizes:random", "sizes:some_zero", "draws_with_a_zero_size_contest_among_positive_ones", "draws_with_phantoms_selected", "cards_listing_no_contest_present", "polling_order_checked", "mismatched_sample_refused", "second_draw_same_contest_objects", "draw_after_sample_numbers_reassigned"]
 ASSUMPTIONS = ["distinct sample numbers; n_c <= number of cards listing c; dict keys equal contest ids; thresholds for "
                "n_c = 0 are unconstrained"]
 N_CASES = {"quick": 19200, "thorough": 200000}
@@ -115,7 +115,7 @@ def run_shard(spec, rec):
         suite.run_suite("checks.c07", rec)
         return
     rng = random.Random(f"c07-{spec['seed']}-{spec['shard']}")
-    modes = ("ones", "all", "one_exhausted", "random", "random")
+    modes = ("ones", "all", "one_exhausted", "random", "random", "some_zero")
     for i in range(spec["n"]):
         es = E.gen_spec(rng, audit_types=("CARD_COMPARISON", "ONEAUDIT"), style=True,
                         n_contests=rng.choice((1, 2, 2, 3, 4, 5)), n_cards=rng.choice((5, 8, 12, 20, 40, 80)))
@@ -140,6 +140,8 @@ def run_case(es, rec):
         return
     sizes = gen_sizes(rng, sim, es.get("_sizes_mode"))
     rec.count(f"sizes:{es.get('_sizes_mode')}")
+    if any(v == 0 for v in sizes.values()) and any(v > 0 for v in sizes.values()):
+        rec.count("draws_with_a_zero_size_contest_among_positive_ones")
     sim.set_sizes(sizes)
     styles = [set(c.votes.keys()) for c in sim.cvr_list]
     if any(not s for s in styles):
